@@ -185,3 +185,28 @@ func FromGo(t *Type, rv reflect.Value) Val {
 	}
 	return Val{}
 }
+
+// Rename returns a copy of t in which every member name, at every depth, and every selector reference carry the
+// suffix.  The codec laws are invariant under renaming (values and encodings are positional), but for reflect.StructOf
+// and for the package under test the result is a struct type that has never been seen before: an unlimited supply of
+// fresh types of a given shape.
+func Rename(t *Type, suffix string) *Type {
+	if t == nil {
+		return nil
+	}
+	out := *t
+	out.Elem = Rename(t.Elem, suffix)
+	if t.Fields != nil {
+		out.Fields = make([]Field, len(t.Fields))
+		for i, f := range t.Fields {
+			nf := f
+			nf.Name = f.Name + suffix
+			if f.Sel != "" {
+				nf.Sel = f.Sel + suffix
+			}
+			nf.T = Rename(f.T, suffix)
+			out.Fields[i] = nf
+		}
+	}
+	return &out
+}
